@@ -185,7 +185,8 @@ class MkMesh(Op):
     def meta(self, a, S):
         rec = a["recipe"]
         return {"cell": meshes.FAMILY_CELL[rec["family"]],
-                "order": rec.get("order", 1), "b": [], "s": []}
+                "order": rec.get("order", 1), "b": [], "s": [],
+                "topo": "T%d" % S.counter}
 
     def apply(self, W, a):
         return meshes.build(a["recipe"])
@@ -216,7 +217,8 @@ class MeshRefined(Op):
 
     def meta(self, a, S):
         src = a["mesh"]["ref"]
-        return _mesh_meta(S, src, size=S.slots[src].get("size", 0) + 1)
+        return _mesh_meta(S, src, size=S.slots[src].get("size", 0) + 1,
+                          topo="T%d" % S.counter)
 
     def apply(self, W, a):
         m = W[a["mesh"]["ref"]]
@@ -282,7 +284,7 @@ class MeshRestrict(Op):
                 "how": rng.choice(["restrict", "remove"])}
 
     def meta(self, a, S):
-        return _mesh_meta(S, a["mesh"]["ref"])
+        return _mesh_meta(S, a["mesh"]["ref"], topo="T%d" % S.counter)
 
     def apply(self, W, a):
         m = W[a["mesh"]["ref"]]
@@ -372,7 +374,9 @@ class MeshRebuild(Op):
             order = 2
         elif a["kind"] == "from_mesh-down":
             order = 1
-        return _mesh_meta(S, src, order=order, b=[], s=[])
+        return _mesh_meta(S, src, order=order, b=[], s=[],
+                          **({} if a["kind"] == "ctor" and S.slots[src]["order"] == 1
+                             else {"topo": "T%d" % S.counter}))
 
     def apply(self, W, a):
         from skfem import mesh as skm
@@ -402,7 +406,7 @@ class MeshConvert(Op):
     def meta(self, a, S):
         src = a["mesh"]["ref"]
         cell = {"quad": "tri", "hex": "tet", "wedge": "tet"}[S.slots[src]["cell"]]
-        return _mesh_meta(S, src, cell=cell)
+        return _mesh_meta(S, src, cell=cell, topo="T%d" % S.counter)
 
     def apply(self, W, a):
         m = W[a["mesh"]["ref"]]
@@ -680,8 +684,13 @@ class MkBasis(Op):
         if rng.random() < 0.2:
             # share the Dofs object of an earlier basis on the same mesh and
             # the same element object
-            other = S.pick(rng, "basis", lambda x: x["mesh"] == m
-                           and x["elem"] == e and not x.get("composite"))
+            # (also of a basis on ANOTHER mesh object with the same cells:
+            # a translated / scaled / tagged copy - the numbering depends on
+            # topology and element only)
+            topo = S.slots[m].get("topo")
+            other = S.pick(rng, "basis", lambda x: x["elem"] == e
+                           and not x.get("composite")
+                           and S.slots.get(x["mesh"], {}).get("topo") == topo)
             if other is not None:
                 a["dofs_from"] = ref(other)
         return a
